@@ -29,6 +29,7 @@ RULE = (
     "and reflected forms are representation-identical to poly_divide/poly_remainder/poly_divmod. "
     "non-trivial = the monitor saw >= 2 candidate searches (>= 1 subtraction step) and the divisor is not constant."
 )
+LEVEL_TEXT += (" Operands that share one name tuple stored out of index order (symbols('q1,q0'), set_dimensions) form their own class; numpy scalars on the left of / % divmod are generated too (known finding).")
 ASSUMPTIONS = [
     "float comparison tolerance 1e-8 * max(1, coefficient magnitude bound)",
     "for a zero divisor element only the identity is required",
